@@ -428,32 +428,24 @@ theorem parseI64_range (s : Bytes) (v : Int) (h : parseI64 s = some v) :
   unfold parseI64 at h
   split at h
   · split at h
-    · simp at h
     · split at h
-      · split at h
-        · simp at h; omega
-        · simp at h
+      · simp at h; omega
       · simp at h
-  · simp only at h
-    split at h
     · simp at h
-    · split at h
-      · split at h
-        · simp at h; omega
-        · simp at h
-      · simp at h
-
-theorem parseU64_range (s : Bytes) (v : Nat) (h : parseU64 s = some v) :
-    v < 18446744073709551616 := by
-  unfold parseU64 at h
-  simp only at h
-  split at h
-  · simp at h
   · split at h
     · split at h
       · simp at h; omega
       · simp at h
     · simp at h
+
+theorem parseU64_range (s : Bytes) (v : Nat) (h : parseU64 s = some v) :
+    v < 18446744073709551616 := by
+  unfold parseU64 at h
+  split at h
+  · split at h
+    · simp at h; omega
+    · simp at h
+  · simp at h
 
 theorem toWord_lt (i : Int) : toWord i < 256 ^ 8 := by
   unfold toWord; omega
